@@ -36,6 +36,7 @@ func init() {
 			ps := []Phase{
 				{Name: "hook", Run: c02Hook},
 				{Name: "tcp-recover", Run: c02TCPRecover},
+				{Name: "tcp-recover-debuglog", Run: func(c *Ctx) { c02DebugServers = true; c02TCPRecover(c) }},
 				{Name: "tcp-norecover", Run: c02TCPNoRecover, Crash: c02Crash},
 			}
 			if tier == "thorough" {
@@ -43,7 +44,7 @@ func init() {
 			}
 			return ps
 		},
-		MinObserved: []string{"inputs", "inputs_tcp_recover", "inputs_tcp_norecover", "reached_decodeControl"},
+		MinObserved: []string{"inputs", "inputs_tcp_recover", "inputs_tcp_norecover", "reached_decodeControl", "inputs_tcp_recover_debug_level_logger"},
 	})
 }
 
@@ -468,8 +469,25 @@ func c02TCPInputs(c *Ctx) []c02Input {
 	return out
 }
 
+// c02DebugServers: the servers log at Debug level (gldap then describes every packet it reads - code that runs on the
+// raw, not yet validated packet and is dead at every other level); the complete single-point set plus a slice of the rest.
+var c02DebugServers bool
+
 func c02TCPRecover(c *Ctx) {
 	ins := c02TCPInputs(c)
+	lvl := hclog.NoLevel
+	if c02DebugServers {
+		lvl = hclog.Debug
+		n := len(c02Singles())
+		if n > len(ins) {
+			n = len(ins)
+		}
+		thin := append([]c02Input{}, ins[:n]...)
+		for i := n; i < len(ins); i += c.N(6, 2) {
+			thin = append(thin, ins[i])
+		}
+		ins = thin
+	}
 	workers := 16
 	var wg sync.WaitGroup
 	var next atomic.Int64
@@ -478,7 +496,7 @@ func c02TCPRecover(c *Ctx) {
 		go func() {
 			defer wg.Done()
 			rc := &Recorder{}
-			srv, err := startSrv(SrvCfg{}, func(m *gldap.Mux) { rc.RegisterAll(m, c01ExtNames) })
+			srv, err := startSrv(SrvCfg{LogLevel: lvl}, func(m *gldap.Mux) { rc.RegisterAll(m, c01ExtNames) })
 			if err != nil {
 				c.Inconclusive("server start: " + err.Error())
 				return
@@ -490,6 +508,9 @@ func c02TCPRecover(c *Ctx) {
 				}
 				if c02SendTCP(c, srv, ins[i], "recovery enabled") {
 					c.Count("inputs_tcp_recover", 1)
+					if c02DebugServers {
+						c.Count("inputs_tcp_recover_debug_level_logger", 1)
+					}
 				}
 			}
 			c.Count("requests_delivered_to_handlers_tcp", rc.count.Load())
